@@ -51,10 +51,14 @@ claim("C04", "other",
       "Decides soundness of the rewriter's local rules: every reachable row of the three comparison-folding tables on the float lattice; relop column wiring; every rewrite extracted by abstract interpretation of the Rewriter/Expr.rewrite source on a finite family of expression shapes, decided on a finite exact model (incl. zero, booleans, complex, nested rounding grids for casts); Expr._is_* answers over operand value classes x knowledge masks. Branch coverage of the Rewriter by the family is measured and reported. Not decided: termination/exceptions for arbitrary DAGs, folding in numpy dtypes, shapes outside the family.",
       "trusted: sa/absint.py interpreter, sa/exprsem.py semantics, lattice oracle; 2 known findings (upcast(downcast), divide by infinite constant)",
       "abstract interpretation of the rule source + finite-model checking of extracted rewrites; literal-table audit", "DESIGN.md §3/C04")
+claim("C08", "other",
+      "Decides, for every kind with a NumPy template and every tuple of operand dtypes over float16/32/64, complex64/128, bool (quick: homogeneous and real/complex pairings; thorough: all mixes), that the static type obtained by abstract interpretation of Expr.get_type/typesystem.Type equals the dtype NumPy's promotion rules give the parsed template; that constants are cast unconditionally to the static type of their like; that debug assertions are wired to the same expression's type. Value-dependent dtypes are not decided.",
+      "trusted: NumPy promotion oracle (NEP 50 on numpy scalars) in rules/C08.py, sa/absint.py; sub-expressions compose by induction over operand types",
+      "abstract interpretation of the typing rules + table comparison with a promotion oracle", "DESIGN.md §3/C08")
 for p, why in dict(
     C01="bounds ULP error of libm-based formulas over all complex inputs: a numeric quantity no static argument in reach can bound",
     C02="same on the real line; float32 exhaustion is execution, not static analysis",
-    C03="(not built yet)", C08="(not built yet)", C12="(not built yet)",
+    C03="(not built yet)", C12="(not built yet)",
     C14="metric laws of integer arithmetic on runtime bit patterns; nothing structural beyond a width table",
 ).items():
     na(p, why)
